@@ -18,11 +18,7 @@ def _p(pid, **kw):
     PROPERTIES[pid] = kw
 
 
-NOT_APPLICABLE = {
-    "C12": "no contract was brought within reach in the time available: the claim reduces to tlexport.dpkt_dsb.Reader (block walk, byte order, if_tsresol / if_tsoffset arithmetic) over "
-           "dpkt's block classes and, for legacy pcap, lies entirely inside dpkt.pcap.Reader; only the container-agnostic part is proved elsewhere (run.packet_branches: everything "
-           "after (ts, buf) depends on ts and buf alone, the reader is chosen by -l only). Not re-attempted with another technique (DESIGN section 6).",
-}
+NOT_APPLICABLE = {}
 
 _p("C17", modules=["quic_varint", "quic_frame"], level="proof",
    level_text="Every obligation generated from the real source of quic_decode.py and quic_frame.py is discharged by z3 with no bound on "
@@ -148,7 +144,7 @@ _p("C05", modules=["framing", "main_run"], level="other",
    assumptions=[], trusted_base=["list.sort (stable, total order by key)"], bounded=BOUNDED_FRAMING, not_under_contract=["main.run's skip of empty segments (run() contract)"])
 
 
-_p("C09", modules=["keylog", "main_run", "demux"], level="other",
+_p("C09", modules=["keylog", "main_run", "demux", "container"], level="other",
    technique="contract-based deductive verification: regular-language inclusion (z3 re theory) for the key-log pattern, VCs for the parsers and run()'s DSB/-s branches",
    level_text="Proved: every line of the NSS key-log grammar (nine labels, upper- or lower-case hex) is accepted by the REAL pattern and yields exactly its three fields "
               "(language inclusion oracle <= pattern, decided by z3); any other line is rejected or parsed without exception; get_keys_from_string returns the keys of "
@@ -286,3 +282,20 @@ _p("C08", modules=["prefix", "framing", "tcp_output", "quic_output", "main_run",
    assumptions=[], trusted_base=[], bounded=BOUNDED_FRAMING, not_under_contract=[])
 
 _p("C02", modules=["quic_session_c", "quic_output", "demux", "quic_pkn", "keys", "quic_varint", "quic_frame"], level="other", level_text="in progress", level_note="in progress", explanation="in progress")
+
+_p("C12", modules=["container", "main_run"], level="other",
+   technique="contracts on the real Reader checked exhaustively within a stated bound over a byte-level file model; dpkt block classes as assumed records",
+   level_text="BOUNDED (one section, one interface, <= 2 blocks before and <= 3 after the interface description; block sizes, contents, field values, option values symbolic; "
+              "both byte orders): tlexport.dpkt_dsb.Reader.__init__ and __iter__ executed from their real ASTs over a byte-level file yield, in file order, one item per packet "
+              "block (EPB and obsolete PB) with timestamp if_tsoffset + ((ts_high << 32) | ts_low) / divisor - divisor 10^v, or 2^(v & 0x7f) when the MSB of if_tsresol is set, "
+              "default 10^6 - and the block's packet data, one (-1, secrets) per decryption-secrets block WHEREVER it sits (also before the interface description), and nothing for "
+              "other block types. UNBOUNDED: everything run() does after the reader depends on (ts, buf) alone, and the reader class is chosen by -l only (run.packet_branches).",
+   level_note="level 'other' and bounded: floating-point timestamp arithmetic is an uninterpreted expression compared structurally (the last-ulp difference between nanosecond and "
+              "microsecond captures noted in DESIGN 4 C12 is not analysed); dpkt.pcap.Reader (legacy pcap) and dpkt's block classes are assumed; multiple sections / interfaces "
+              "are outside the bound",
+   design_ref="DESIGN.md 4 C12", explanation="The pcapng reader is checked against the block grammar within a bound; legacy pcap equivalence lives entirely inside dpkt and is assumed.",
+   assumptions=["dpkt.pcapng block classes decode the fields the pcapng specification names, in the byte order of the class",
+                "dpkt.Packet(buf) == unpack(buf) on a fresh instance with __hdr__ decoded in __byte_order__"],
+   trusted_base=["dpkt.pcapng block classes", "dpkt.pcap.Reader"],
+   bounded=[{"function": "tlexport.dpkt_dsb.Reader.__init__/__iter__, DecryptionSecretBlock.unpack", "bound": "1 section, 1 interface, <= 2 + 3 further blocks", "counted_as": "bounded"}],
+   not_under_contract=["dpkt.pcap.Reader", "Reader.dispatch/loop/readpkts (unused by run)"])
